@@ -77,7 +77,8 @@ Inductive err :=
   | ETrack         (* GroundTrack.Exception: negative distance / step *)
   | ENoConv        (* RuntimeError: mass iteration failed to converge *)
   | ENoFuelLoad    (* TypeError: starting mass given, so no fuel load was ever computed *)
-  | EHandover.     (* IndexError of make_point *)
+  | EHandover      (* IndexError of make_point *)
+  | EWeather.      (* ValueError of Weather.get_ground_speed: outside the weather data domain *)
 Inductive res (A : Type) := Ok (a : A) | Err (e : err).
 Arguments Ok {A}. Arguments Err {A}.
 
@@ -137,10 +138,26 @@ Section Builder.
   (* geo k s : the k-th geodesic evaluation: position and azimuth at distance s from the origin *)
   Variable geo : nat -> R -> R * R * R.                              (* lon, lat, azimuth *)
   Variable fixed : bool.
+  (* gsp k tas : ground speed under wind returned by the weather module (C16) for the segment whose track step
+     is geodesic evaluation k; None = refused (outside the weather data domain) *)
+  Variable gsp : nat -> R -> option R.
+  Variable use_wx : bool.                       (* Options.use_weather *)
+  (* a starting mass handed in by the caller: true = the fuel load is still derived (after fixes/FC17a.diff),
+     false = it stays None and the first point cannot be stored (the code before that fix) *)
+  Variable gfix : bool.
 
   (* GroundTrack.step: negative arguments are refused, otherwise the point at from + step *)
   Definition track_step (kg : nat) (from step : R) : option (R * R * R) :=
     if (from <? zero) || (step <? zero) then None else Some (geo kg (from + step)).
+
+  (* ground speed of a segment that starts at ground distance [dist] with (forward) airspeed [tas]:
+     without weather the airspeed itself; with weather GroundTrack.location(dist) must exist (no overstep
+     there) and the weather module answers *)
+  Definition ground_speed (total : R) (kg : nat) (dist tas : R) : res R :=
+    if use_wx then
+      if (dist <? zero) || (total <? dist) then Err ETrack
+      else match gsp kg tas with Some g => Ok g | None => Err EWeather end
+    else Ok tas.
 
   (* ---- calc_starting_mass ---- *)
   (* the arithmetic (re-extracted from the source on every run and proved equal in link/C02_Link.v);
@@ -176,13 +193,13 @@ Section Builder.
 
   Definition fwd_tas (a : R * R * R) : R := let '(tas, rocd, _) := a in nsqrt (tas * tas - rocd * rocd).
   Definition lc_seg_time (delta : R) (a : R * R * R) : R := let '(_, rocd, _) := a in delta / rocd.
-  Definition lc_dist (delta : R) (a : R * R * R) : R := fwd_tas a * lc_seg_time delta a.
+  Definition lc_dist (delta : R) (a : R * R * R) (gs : R) : R := gs * lc_seg_time delta a.
 
   (* the point appended at the start of a segment *)
-  Definition lc_q (alt : R) (p : pt) (a : R * R * R) : pt :=
+  Definition lc_q (alt : R) (p : pt) (a : R * R * R) (gs : R) : pt :=
     let '(tas, rocd, ff) := a in
     mkpt alt (alt * METERS_TO_FL) tas rocd (p_mass p) (p_fuel p) (p_dist p) (p_time p)
-         (fwd_tas a) ff (p_lon p) (p_lat p) (p_az p) (p_az p).
+         gs ff (p_lon p) (p_lat p) (p_az p) (p_az p).
 
   (* segment fuel: burn + acceleration term, clamped at zero *)
   Definition lc_seg_fuel (delta lhv : R) (p : pt) (a a_end : R * R * R) : R :=
@@ -195,17 +212,18 @@ Section Builder.
     if seg_fuel1 <? zero then zero else seg_fuel1.
 
   (* the state at the end of the segment *)
-  Definition lc_next (alt delta lhv : R) (p : pt) (a : R * R * R) (g : R * R * R) (a_end : R * R * R) : pt :=
+  Definition lc_next (alt delta lhv : R) (p : pt) (a : R * R * R) (gs : R) (g : R * R * R) (a_end : R * R * R) : pt :=
     let '(tas, rocd, ff) := a in
     let '(lon, lat, az) := g in
     let sf := lc_seg_fuel delta lhv p a a_end in
     mkpt alt (alt * METERS_TO_FL) tas rocd (p_mass p - sf) (p_fuel p - sf)
-         (p_dist p + lc_dist delta a) (p_time p + lc_seg_time delta a) (fwd_tas a) ff lon lat az (p_az p).
+         (p_dist p + lc_dist delta a gs) (p_time p + lc_seg_time delta a) gs ff lon lat az (p_az p).
 
   Section LevelChange.
     Variable rl : rule.
     Variable lhv : R.
     Variable start_alt delta : R.
+    Variable total : R.
 
     (* m = segments still to fly, idx = index of the current point (as a number) *)
     Fixpoint lc_loop (m : nat) (idx : R) (p : pt) (kp kg : nat) : res (list pt * nat * nat) :=
@@ -216,15 +234,19 @@ Section Builder.
         match m with
         | O => Ok ([lc_last alt p a], S kp, kg)
         | S m' =>
-          match track_step kg (p_dist p) (lc_dist delta a) with
-          | None => Err ETrack
-          | Some g =>
-            match perf (S kp) rl (alt + delta) (p_mass p) with
-            | None => Err EPerf
-            | Some a_end =>
-              match lc_loop m' (idx + one) (lc_next alt delta lhv p a g a_end) (S (S kp)) (S kg) with
-              | Err e => Err e
-              | Ok (l, kp', kg') => Ok (lc_q alt p a :: l, kp', kg')
+          match ground_speed total kg (p_dist p) (fwd_tas a) with
+          | Err e => Err e
+          | Ok gs =>
+            match track_step kg (p_dist p) (lc_dist delta a gs) with
+            | None => Err ETrack
+            | Some g =>
+              match perf (S kp) rl (alt + delta) (p_mass p) with
+              | None => Err EPerf
+              | Some a_end =>
+                match lc_loop m' (idx + one) (lc_next alt delta lhv p a gs g a_end) (S (S kp)) (S kg) with
+                | Err e => Err e
+                | Ok (l, kp', kg') => Ok (lc_q alt p a gs :: l, kp', kg')
+                end
               end
             end
           end
@@ -233,32 +255,37 @@ Section Builder.
   End LevelChange.
 
   (* ---- fly_cruise ---- *)
-  Definition crz_q (p : pt) : pt :=
+  Definition crz_q (p : pt) (gs : R) : pt :=
     mkpt (p_alt p) (p_fl p) (p_tas p) (p_rocd p) (p_mass p) (p_fuel p) (p_dist p) (p_time p)
-         (p_tas p) (p_ff p) (p_lon p) (p_lat p) (p_az p) (p_az p).
-  Definition crz_next (step : R) (p : pt) (g : R * R * R) (a : R * R * R) : pt :=
+         gs (p_ff p) (p_lon p) (p_lat p) (p_az p) (p_az p).
+  Definition crz_next (step : R) (p : pt) (gs : R) (g : R * R * R) (a : R * R * R) : pt :=
     let '(tas, rocd, ff) := a in
     let '(lon, lat, az) := g in
-    let seg_time := step / p_tas p in
+    let seg_time := step / gs in
     let seg_fuel := ff * seg_time in
     mkpt (p_alt p) (p_fl p) tas rocd (p_mass p - seg_fuel) (p_fuel p - seg_fuel)
-         (p_dist p + step) (p_time p + seg_time) (p_tas p) ff lon lat az (p_az p).
+         (p_dist p + step) (p_time p + seg_time) gs ff lon lat az (p_az p).
 
   Section CruiseLoop.
     Variable step : R.
+    Variable total : R.
     Fixpoint crz_loop (m : nat) (p : pt) (kp kg : nat) : res (list pt * nat * nat) :=
       match m with
       | O => Ok ([], kp, kg)
       | S m' =>
-        match track_step kg (p_dist p) step with
-        | None => Err ETrack
-        | Some g =>
-          match perf kp Cruise (p_alt p) (p_mass p) with
-          | None => Err EPerf
-          | Some a =>
-            match crz_loop m' (crz_next step p g a) (S kp) (S kg) with
-            | Err e => Err e
-            | Ok (l, kp', kg') => Ok (crz_q p :: l, kp', kg')
+        match ground_speed total kg (p_dist p) (p_tas p) with
+        | Err e => Err e
+        | Ok gs =>
+          match track_step kg (p_dist p) step with
+          | None => Err ETrack
+          | Some g =>
+            match perf kp Cruise (p_alt p) (p_mass p) with
+            | None => Err EPerf
+            | Some a =>
+              match crz_loop m' (crz_next step p gs g a) (S kp) (S kg) with
+              | Err e => Err e
+              | Ok (l, kp', kg') => Ok (crz_q p gs :: l, kp', kg')
+              end
             end
           end
         end
@@ -294,7 +321,7 @@ Section Builder.
   Definition fly_iteration (f : flight) (s : sched) (sm tf : R) (kp kg : nat) : res (traj * R * nat * nat) :=
     let p0 := start_point f s sm tf in
     let d_clm := (s_crz s - s_clm s) / nm1 (f_n_clm f) in
-    match lc_loop Climb (f_lhv f) (s_clm s) d_clm (Nat.pred (f_n_clm f)) zero p0 kp kg with
+    match lc_loop Climb (f_lhv f) (s_clm s) d_clm (f_total f) (Nat.pred (f_n_clm f)) zero p0 kp kg with
     | Err e => Err e
     | Ok (l1, kp1, kg1) =>
       match hand l1 with
@@ -303,14 +330,14 @@ Section Builder.
         let c0 := crz_entry (s_crz s) h1 in
         let end_dist := f_total f - s_ddist s in
         let step := (end_dist - p_dist h1) / nm1 (f_n_crz f) in
-        match crz_loop step (f_n_crz f) c0 kp1 kg1 with
+        match crz_loop step (f_total f) (f_n_crz f) c0 kp1 kg1 with
         | Err e => Err e
         | Ok (l2, kp2, kg2) =>
           match hand (l1 ++ l2) with
           | Err e => Err e
           | Ok h2 =>
             let d_des := (s_des_end s - s_des_start s) / nm1 (f_n_des f) in
-            match lc_loop Descend (f_lhv f) (s_des_start s) d_des (Nat.pred (f_n_des f)) zero h2 kp2 kg2 with
+            match lc_loop Descend (f_lhv f) (s_des_start s) d_des (f_total f) (Nat.pred (f_n_des f)) zero h2 kp2 kg2 with
             | Err e => Err e
             | Ok (l3, kp3, kg3) =>
               let t := mktraj l1 l2 l3 in
@@ -348,12 +375,13 @@ Section Builder.
     match schedule (f_o_alt f) (f_d_alt f) (f_max_alt f) with
     | Err e => Err e
     | Ok s =>
-      match given_mass with
-      | Some _ => Err ENoFuelLoad      (* total_fuel_mass stays None: _start_point cannot store it *)
-      | None =>
+      match given_mass, gfix with
+      | Some _, false => Err ENoFuelLoad      (* total_fuel_mass stays None: _start_point cannot store it *)
+      | _, _ =>
         match calc_starting_mass 0 (s_crz s) (f_total f) (f_lf f) (f_max_payload f) (f_empty f) (f_max_mass f) with
         | Err e => Err e
-        | Ok (sm, tf) =>
+        | Ok (sm0, tf) =>
+          let sm := match given_mass with Some m => m | None => sm0 end in
           match fly_iteration f s sm tf 1 0 with
           | Err e => Err e
           | Ok (t, r, kp, kg) =>
@@ -419,9 +447,12 @@ Inductive outcome :=
           (rows : list (list float))
   | Refused (e : err).
 
-Definition run_flight (fixed : bool) (pl : list (option (float * float * float))) (gl : list (float * float * float))
+Definition gsp_replay (l : list (option float)) (k : nat) (_ : float) : option float := nth k l None.
+
+Definition run_flight (fixed gfix : bool) (pl : list (option (float * float * float))) (gl : list (float * float * float))
+    (use_wx : bool) (wl : list (option float))
     (f : @flight FNum) (given : option float) (it : bool) (max_iters : nat) (reltol : float) : outcome :=
-  match @fly FNum (perf_replay pl) (geo_replay gl) fixed f given it max_iters reltol with
+  match @fly FNum (perf_replay pl) (geo_replay gl) fixed (gsp_replay wl) use_wx gfix f given it max_iters reltol with
   | Err e => Refused e
   | Ok r =>
     let t := r_traj r in
